@@ -237,6 +237,44 @@ def run(tier, seed, rng):
         if not ok:
             failures.append(dict(kind='oracle', sig='defaults-prototype-descriptor', what=f"the default of Ref(Chunk({'length=%s' % pin if pin is not None else ''})) is not a copy of the prototype: its described field 'length' must read / pack {want_len}",
                                  classes=psrc, cls=c['cls'], observed=o))
+    # ---- integers of DIFFERENT byte orders separated by fields that have none (fixed byte strings, single bytes), full-size
+    # defaults (no D11 ambiguity): pack() of a default- or keyword-constructed packet is the encoding of the held values, each
+    # integer in its own byte order -- whatever struct runs the generated code forms
+    import itertools as _itx
+    xsrc2, xcases2, xwant2 = "", [], []
+    layouts = [("M0", {}, [('a', 2, 'little'), ('d', 'D2'), ('b', 2, 'big')]), ("M1", {}, [('a', 4, 'little'), ('o', 1, 'big'), ('b', 2, 'big')]),
+               ("M2", {'endianness': 'little'}, [('a', 2, None), ('d', 'D3'), ('o', 1, None), ('b', 4, 'big'), ('c', 2, None)]),
+               ("M3", {}, [('a', 2, 'big'), ('d', 'D2'), ('b', 2, 'little'), ('e', 'D1'), ('c', 8, 'big')]),
+               ("M4", {'endianness': 'big'}, [('d', 'D2'), ('a', 2, 'little'), ('e', 'D2'), ('b', 2, None)])]
+    for nm0, conf0, fl in layouts:
+        for gen_ in (True, False):
+            nm = nm0 + ('' if gen_ else 'L')
+            conf = dict(conf0) if gen_ else dict(conf0, generate_for_pack=False, generate_for_unpack=False)
+            xsrc2 += f"class {nm}(Packet):\n    __bisturi__ = {conf!r}\n"
+            defaults, encs = {}, {}
+            for k, fd in enumerate(fl):
+                if fd[1] in ('D1', 'D2', 'D3'):
+                    w = int(fd[1][1]); dv = bytes(0x61 + k + j for j in range(w))
+                    xsrc2 += f"    {fd[0]} = Data({w}, default={dv!r})\n"
+                    defaults[fd[0]] = dv; encs[fd[0]] = lambda v: v
+                else:
+                    w, en = fd[1], fd[2]
+                    dv = int.from_bytes(bytes(range(k * 16 + 1, k * 16 + 1 + w)), 'big')
+                    xsrc2 += f"    {fd[0]} = Int({w}{'' if en is None else ', endianness=%r' % en}, default={dv})\n"
+                    order = en or conf0.get('endianness', 'big')
+                    defaults[fd[0]] = dv; encs[fd[0]] = (lambda w, order: (lambda v: v.to_bytes(w, order)))(w, order)
+            names = [fd[0] for fd in fl]
+            for r in (0, 1, 2):
+                for sub in _itx.combinations(names, r):
+                    kw = {n: (defaults[n][::-1] if isinstance(defaults[n], bytes) else (defaults[n] ^ 0x5a)) for n in sub}
+                    held = dict(defaults, **kw)
+                    xcases2.append(dict(cls=nm, op='pack', value={"py": f"{nm}({', '.join('%s=%r' % kv for kv in kw.items())})"}))
+                    xwant2.append((nm, kw, b''.join(encs[n](held[n]) for n in names).hex()))
+    xres2 = run_impl(os.path.join(VERIF, 'harness', 'impl_pkt.py'), dict(header=decl.HEADER_PY, blocks=[dict(name='mixedorder', src=xsrc2)], modname='c19m', cases=xcases2))
+    for (nm, kw, want), o in zip(xwant2, xres2['outcomes']):
+        if o.get('ok') != want:
+            failures.append(dict(kind='oracle', sig='defaults-pack-mixed-byte-order', what=f"{nm}({', '.join('%s=%r' % kv for kv in kw.items())}).pack() must be the encoding of the held values, each integer in its own byte order: {want}",
+                                 classes='class ' + [c for c in xsrc2.split('class ') if c.startswith(nm + '(')][0], cls=nm, observed=o, required=want))
     dist = dict(constructed=0, with_keywords=0, pack_compared=0, falsy_keywords=falsy_checked, after_mutation=after, prototype_descriptor_cases=len(pcases), embedded_descriptor_cases=len(ecases))
     recs = [r for r in records if r['kind'] in ('default', 'pack') and r.get('tag') != 'falsy']
     it = iter(recs)
